@@ -734,7 +734,6 @@ def h_substitute_metadata(eng):
             out.append(r)
         return VList(out)
     eng.ext_modules["casadi"].attrs["substitute"] = stub(substitute)
-    eng.ext_modules["itertools"].attrs["chain"] = stub(lambda eng, *a: VList([x for s_ in a for x in eng.iterate(s_)]))
     eng.call(VBound(f, m), [VList([T("sym", (), name="p")]), VList([1.0])], {})
     eng.cover("submeta.done")
     ok_untouched, ok_own, ok_type = True, True, True
